@@ -70,7 +70,14 @@ def correspond(res, tier):
             key = e['key']
             args = key if f in ('log_quadrature_rule', 'log_log_quadrature_rule', 'sqrt_quadrature_rule',
                                 'sqrtinv_quadrature_rule') else (key[0], )
-            got = fn(*args)
+            try:
+                got = fn(*args)
+            except Exception as exc:  # noqa: BLE001 - a tabulated rule must be handed out when it is requested
+                res.count(('returned', f, key))
+                res.violation('C05:request-refused:%s:%s' % (f, '_'.join(str(k) for k in args)),
+                              dict(family=f, key=list(key), error=repr(exc)[:200], call='%s%s' % (f, tuple(args)),
+                                   note='the table has a branch for this key'))
+                continue
             res.count(('returned', f, key))
             if got is None:
                 if e['returns']:
@@ -115,7 +122,12 @@ def search(res, tier, boost=False):
         two = f in ('log_quadrature_rule', 'log_log_quadrature_rule', 'sqrt_quadrature_rule', 'sqrtinv_quadrature_rule')
         for e in entries:
             key = e['key']
-            got = fn(*(key if two else (key[0], )))
+            try:
+                got = fn(*(key if two else (key[0], )))
+            except Exception as exc:  # noqa: BLE001
+                res.violation('C05:request-refused:%s:%s' % (f, '_'.join(str(k) for k in (key if two else key[:1]))),
+                              dict(family=f, key=list(key), error=repr(exc)[:200], note='the table has a branch for this key'))
+                continue
             if got is None:
                 res.violation('C05:returns-nothing:%s:%s' % (f, key[0]), dict(family=f, key=list(key), observed='None'))
                 continue
